@@ -87,6 +87,11 @@ def _tuple(eng, node, x=()):
 def _list(eng, node, x=()):
     if isinstance(x, SList):
         return x
+    if type(x).__name__ == "DictValues" and isinstance(x.d, SDict):
+        # list(d.values()): the values in key order
+        keys = eng.dict_keys(x.d)
+        i = z3.Int("_lv")
+        return SList(x.d.v, keys.n, [z3.Lambda([i], c[keys.comps[0][i]]) for c in x.d.comps])
     if isinstance(x, SDict):
         return eng.dict_keys(x)
     return CList(eng.concrete_or_fail(x))
@@ -426,6 +431,13 @@ def as_narr(eng, x):
 
 @reg("numpy.array", "numpy.asarray")
 def _array(eng, node, x, dtype=None):
+    if isinstance(x, SList) and x.items is None and type(x.t).__name__ == "TVec":
+        return x            # an array of symbolically many rows: kept as the list of its rows
+    if type(x).__name__ == "DictValues" and isinstance(x.d, SDict) and type(x.d.v).__name__ == "TVec":
+        # np.array(list(d.values())) of a dict of vectors: the rows in key order
+        keys = eng.dict_keys(x.d)
+        i = z3.Int("_lv")
+        return SList(x.d.v, keys.n, [z3.Lambda([i], c[keys.comps[0][i]]) for c in x.d.comps])
     a = as_narr(eng, x)
     if any(e is INF for e in a.data):
         if all(e is INF for e in a.data):
